@@ -12,6 +12,7 @@ import (
 	"fmt"
 	"io"
 	"net"
+	"sort"
 	"strings"
 	"sync"
 	"testing"
@@ -215,6 +216,28 @@ func runC13(l *evlog.Log, c *evlog.Case, cs *c13Case, idx int) {
 	}
 	world = w
 	defer func() {
+		// "releases its state": long after every connection of the case ended (completed ones were closed,
+		// failed ones timed out) neither transport may still route a connection ID or hold a reset token
+		time.Sleep(3 * time.Minute)
+		synctest.Wait()
+		for _, tr := range []struct {
+			name string
+			t    *quic.Transport
+		}{{"client", w.ClientTr}, {"server", w.ServerTr}} {
+			if tr.t == nil {
+				continue
+			}
+			cids, closed, tokens := quic.VerifRouting(tr.t)
+			l.Count("routing_tables_inspected", 1)
+			if len(cids) > 0 || tokens > 0 {
+				var ids []string
+				for id := range cids {
+					ids = append(ids, fmt.Sprintf("%x", id))
+				}
+				sort.Strings(ids)
+				viol("leak|routing-entries-after-the-end|"+tr.name, "3 min (virtual) after the case ended the %s transport still routes %d connection ID(s) %v (%d to closed-connection placeholders) and holds %d stateless reset token(s)", tr.name, len(cids), ids, closed, tokens)
+			}
+		}
 		w.Close()
 		time.Sleep(time.Minute)
 		synctest.Wait()
